@@ -1,7 +1,7 @@
 """C18: FileView clamping (R-BOUND), chunker contiguity, view construction, index grouping check."""
 from __future__ import annotations
 import re
-from ..astq import Node, up, strip, strip_cast, walk_no_nested_fn, calls, binding_before, dominates
+from ..astq import Node, up, strip, strip_cast, walk_no_nested_fn, calls, binding_before, dominates, toplevel_stmt, stmt_of
 from ..rules.layout import origin
 from ..rules.pred import weak_orders, order_str
 
@@ -222,15 +222,15 @@ def ob_chunker(ctx, res):
         res.fail("chunker/loop", fn, "expected one loop")
         return
     lb = up(loops[0]["body"])
-    seq = [r"file_reader\.seek\(io::SeekFrom::Start\(chunk_end\)\)\?;", r"file_reader\.read_line\(&mut String::new\(\)\)\?;",
-           r"let line_end = file_reader\.seek\(io::SeekFrom::Current\(0\)\)\?;", r"chunk_end = line_end;", r"chunk_vec\.push\(\(chunk_start,chunk_end\)\);"]
-    pos = 0
-    for rx in seq:
-        m = re.search(rx, lb[pos:])
-        if not m:
-            res.fail("chunker/sequence", loops[0], "each chunk must end right after the line that contains the candidate end: missing step `%s` in order" % rx)
-            return
-        pos += m.end()
+    # the name of the local holding the post-line position is free; `chunk_end = <seek Current(0)>?` directly is the same thing
+    m = re.search(r"file_reader\.seek\(io::SeekFrom::Start\(chunk_end\)\)\?; ?file_reader\.read_line\(&mut String::new\(\)\)\?; ?"
+                  r"(?:let (\w+) = file_reader\.(?:seek\(io::SeekFrom::Current\(0\)\)|stream_position\(\))\?; ?chunk_end = \1;"
+                  r"|chunk_end = file_reader\.(?:seek\(io::SeekFrom::Current\(0\)\)|stream_position\(\))\?;) ?"
+                  r"chunk_vec\.push\(\(chunk_start, ?chunk_end\)\);", lb)
+    if not m:
+        res.fail("chunker/sequence", loops[0], "each chunk must end right after the line that contains the candidate end: seek to the candidate, read one line, take the position, push (start, position) - in that order")
+        return
+    pos = m.end()
     if not re.search(r"\(chunk_start,chunk_end\) = \(chunk_end,chunk_end\.max\(chunk_start \+ chunk_size \+ chunk_size\)\);", lb[pos:]):
         res.fail("chunker/next", loops[0], "the next chunk must start exactly where the previous one ended")
         return
@@ -292,3 +292,301 @@ def ob_index_grouping(ctx, res):
                  "adjacent, the lengths always agree and an ungrouped file (chr1, chr2, chr1) is never reported as such" % (sort_call, key))
         return
     res.ok(fn, "index: adjacent duplicates collapsed; a copy sorted by NAME and deduplicated has the same length iff no chromosome re-occurs non-adjacently, else None")
+
+
+# ---------------------------------------------------------------------------------------------------------------------
+# C18-B1: the bisection in index_chroms::do_index
+
+
+def _sq(t):
+    return re.sub(r"[\s()]", "", t)
+
+
+_PURE_M = {"get", "unwrap", "map", "unwrap_or", "map_or", "min", "max", "len", "clone", "as_ref"}
+
+
+def _pure(e):
+    for x in [strip(e)] + list(walk_no_nested_fn(e)):
+        if isinstance(x, Node) and (x.k in ("try", "match", "return", "macro", "call", "await", "assign") or (x.k == "mcall" and x["method"] not in _PURE_M)):
+            return False
+    return True
+
+
+def _inl(fn, n, depth=0):
+    """canonical text of n with single-assignment `let` locals replaced by their initialisers (recursively)"""
+    t = up(strip(n))
+    if depth > 6:
+        return t
+    seen = {}
+    for x in [strip(n)] + list(walk_no_nested_fn(n)):
+        if isinstance(x, Node) and x.k == "path" and "::" not in x["path"] and x["path"] not in seen:
+            b = binding_before(fn, x["path"], x)
+            if b is not None and b[0] == "let" and b[-1] == () and b[1].get("init") is not None and b[1]["pat"].k == "p_ident" and not b[1]["pat"].get("mut") and _pure(b[1]["init"]):
+                seen[x["path"]] = "(" + _inl(fn, b[1]["init"], depth + 1) + ")"
+    if strip(n).k == "path" and strip(n)["path"] in seen:
+        return seen[strip(n)["path"]]
+    for name, rep in seen.items():
+        t = re.sub(r"(?<![\w.])%s\b(?!\s*\()" % re.escape(name), lambda m: rep, t)
+    return t
+
+
+def _eval_int(text, env):
+    """evaluate a +,-,*,/ expression over non-negative integers (Rust semantics: floor division, underflow = refuse)"""
+    t = re.sub(r"\bas\s+u\d+\b", "", text)
+    if not re.fullmatch(r"[\w\s()+\-*/]+", t):
+        raise Refuse("not arithmetic: " + text)
+    t = t.replace("/", "//")
+    v = eval(t, {"__builtins__": {}}, dict(env))   # names are restricted to env by the regex above + empty builtins
+    if v < 0:
+        raise Refuse("underflow")
+    return v
+
+
+def _inside(block, n):
+    x = n
+    while x is not None and isinstance(x, Node):
+        if x is block:
+            return True
+        x = x.parent
+    return False
+
+
+def _match_of(arm):
+    x = arm.parent
+    while x is not None and isinstance(x, Node) and x.k != "match":
+        x = x.parent
+    return x if isinstance(x, Node) else None
+
+
+def ob_bisection(ctx, res):
+    """C18-B1: every probe outcome of do_index either records the probed line and recurses on both sides or narrows the interval"""
+    fn = ctx.ast.fn(IX, "do_index")
+    stmts = fn.body["stmts"]
+    recs = [c for c in walk_no_nested_fn(fn.body) if c.k == "call" and up(c["func"]) == "do_index"]
+    # --- the probe sequence -----------------------------------------------------------------------------------------
+    top = lambda c: stmt_of(c) is not None and stmt_of(c).parent is fn.body   # the probe itself is unconditional
+    seeks = [c for c in calls(fn.body, method="seek") if "SeekFrom::Start" in up(c["args"][0]) and top(c)]
+    reads = [c for c in calls(fn.body, method="read_line") if top(c)]
+    tells = [n for n in stmts if n.k == "let" and n.get("init") is not None and re.fullmatch(r"\w+\.(tell\(\)|stream_position\(\)|seek\((io::)?SeekFrom::Current\(0\)\))\?", up(strip(n["init"])) or "")]
+    parses = [c for c in walk_no_nested_fn(fn.body) if c.k == "call" and up(c["func"]) == "parse_line" and top(c)]
+    ins = [c for c in walk_no_nested_fn(fn.body) if c.k == "mcall" and c["method"].startswith("insert")]
+    if len(seeks) != 1 or len(reads) != 2 or len(tells) != 1 or len(parses) != 1:
+        res.fail("bisect/probe-shape", fn, "expected one probe per call: seek(Start(mid)), read_line (skip the partial line), take the position, read_line, parse_line; found %d seeks, %d read_line, %d positions, %d parse_line"
+                 % (len(seeks), len(reads), len(tells), len(parses)))
+        return
+    T = up(tells[0]["pat"])
+    order = [toplevel_stmt(seeks[0]), toplevel_stmt(reads[0]), tells[0], toplevel_stmt(reads[1]), toplevel_stmt(parses[0])]
+    if any(o is None for o in order) or [o.order for o in order] != sorted(set(o.order for o in order)):
+        res.fail("bisect/probe-order", fn, "the recorded offset must be the position taken after skipping the partial line and immediately before reading the line that is parsed")
+        return
+    clears = [c for c in calls(fn.body, method="clear") if order[1].order < toplevel_stmt(c).order < order[3].order]
+    if len(clears) != 1:
+        res.fail("bisect/probe-clear", fn, "the skipped partial line must be cleared from the buffer before the probed line is read (read_line appends)")
+        return
+    # --- prev offset P, upper bound U, mid ---------------------------------------------------------------------------
+    mid_txt = _sq(_inl(fn, strip(seeks[0]["args"][0])["args"][0]))
+    P = "chroms.getprev.unwrap.0"
+    if P not in mid_txt:
+        res.fail("bisect/mid", seeks[0], "the probe position must be computed from prev's offset; got `%s`" % mid_txt)
+        return
+    params = {nm: ty for nm, ty in fn.params if nm}
+    ub_param = [n for n, ty in params.items() if ty == "u64" and n != "file_size"]
+    mexpr = mid_txt.replace(P, "P")
+    old_upper = "next.map|next|chroms.getnext.unwrap.0.unwrap_orfile_size"
+    if old_upper in mexpr:
+        U_is_param, U = False, None
+        mexpr = mexpr.replace(old_upper, "U")
+    elif len(ub_param) == 1 and re.search(r"\b%s\b" % ub_param[0], mexpr):
+        U_is_param, U = True, ub_param[0]
+        mexpr = re.sub(r"\b%s\b" % U, "U", mexpr)
+    else:
+        res.fail("bisect/mid", seeks[0], "the probe position must be computed from prev's offset and the interval's upper bound; got `%s`" % mid_txt)
+        return
+    mid_src = _inl(fn, strip(seeks[0]["args"][0])["args"][0])
+    mid_py = re.sub(r"chroms\.get\(prev\)\.unwrap\(\)\.0", "P", mid_src)
+    mid_py = mid_py.replace("next.map(|next| chroms.get(next).unwrap().0).unwrap_or(file_size)", "U")
+    if U:
+        mid_py = re.sub(r"\b%s\b" % U, "U", mid_py)
+    # --- overshoot handling (the D18 defect) ----------------------------------------------------------------------------
+    ins_top = [toplevel_stmt(c) for c in ins]
+    first_ins = min((s.order for s in ins_top if s is not None), default=None)
+    if first_ins is None:
+        res.fail("bisect/insert", fn, "the probed line is never recorded")
+        return
+    guards = []
+    for s in stmts:
+        if s.k == "expr_stmt" and strip(s["e"]).k == "if" and tells[0].order < s.order < first_ins:
+            i = strip(s["e"])
+            c = _sq(up(i["cond"]))
+            if U and c in ("%s>=%s" % (T, U), "%s<=%s" % (U, T), "!%s<%s" % (T, U)) and i.get("else") is None:
+                guards.append(i)
+    if not U_is_param or len(guards) != 1:
+        res.fail("bisect/overshoot", fn,
+                 "a probe that lands at or beyond the upper bound of the interval (mid lies inside the last line before it: a long line, or the last line of the file) "
+                 "ends the search without ever looking at the lines between prev and mid, so whole chromosomes are missing from the index "
+                 "(e.g. `chr1..\\nchr2..\\n` indexes as [(0,chr1)]); the overshoot outcome must narrow the interval to (prev, mid] and continue")
+        return
+    g = guards[0]
+    if not toplevel_stmt(g).order < order[3].order:
+        res.fail("bisect/overshoot-late", g, "the overshoot test must come before the probed line is read and parsed (at end of file the parse yields None and returns)")
+        return
+    gcalls = [c for c in recs if _inside(g["then"], c)]
+    rets = [n for n in walk_no_nested_fn(g["then"]) if n.k == "return"]
+    if len(gcalls) != 1 or len(rets) != 1 or strip(rets[0]["e"]) is not gcalls[0] and up(strip(rets[0]["e"])) != up(gcalls[0]):
+        res.fail("bisect/overshoot-continue", g, "the overshoot branch must return the result of searching the narrowed interval")
+        return
+    names = [nm for nm, _ in fn.params]
+    a = {names[i]: gcalls[0]["args"][i] for i in range(len(names))}
+    if up(strip(a["prev"])) != "prev" or up(strip(a["next"])) != "next":
+        res.fail("bisect/overshoot-args", gcalls[0], "the narrowed search keeps the same prev and next")
+        return
+    new_u = re.sub(r"chroms\.get\(prev\)\.unwrap\(\)\.0", "P", _inl(fn, a[U]))
+    new_u = re.sub(r"\b%s\b" % U, "U", new_u)
+    # --- base case --------------------------------------------------------------------------------------------------------
+    base = None
+    for s in stmts:
+        if s.k == "expr_stmt" and strip(s["e"]).k == "if" and s.order < toplevel_stmt(seeks[0]).order:
+            i = strip(s["e"])
+            ct = _inl(fn, i["cond"])
+            ct = re.sub(r"chroms\.get\(prev\)\.unwrap\(\)\.0", "P", ct)
+            ct = re.sub(r"\b%s\b" % U, "U", ct)
+            if re.fullmatch(r"[PU\d\s()+\-<>=]+", ct) and re.fullmatch(r"\{return Ok\(\(\)\);?\}", up(i["then"])):
+                base = ct
+    if base is None:
+        res.fail("bisect/base", fn, "no base case comparing the upper bound with prev's offset: the narrowing recursion would not terminate")
+        return
+    # arithmetic over all small (P, U): whenever the base case does not return, P <= mid < U, the narrowed bound is < U and > P is not required (base case catches it)
+    n_cases = 0
+    try:
+        for Pv in range(0, 5):
+            for Uv in range(0, Pv + 12):
+                env = {"P": Pv, "U": Uv}
+                try:
+                    stop = bool(eval(base, {"__builtins__": {}}, env))
+                except Exception:
+                    raise Refuse("base case not evaluable: " + base)
+                if Uv <= Pv + 1 and not stop:
+                    res.fail("bisect/base-weak", fn, "base case `%s` lets the empty interval P=%d,U=%d through" % (base, Pv, Uv))
+                    return
+                if stop:
+                    if Uv > Pv + 1:
+                        res.fail("bisect/base-strong", fn, "base case `%s` stops at P=%d,U=%d although a line can start strictly between them" % (base, Pv, Uv))
+                        return
+                    continue
+                m = _eval_int(mid_py, env)
+                nu = _eval_int(new_u.replace(_sq(mid_py), "M") if False else new_u, dict(env))
+                n_cases += 1
+                if not (Pv <= m < Uv):
+                    res.fail("bisect/mid-range", seeks[0], "probe position `%s` leaves [prev, upper) at P=%d,U=%d (mid=%d)" % (mid_py, Pv, Uv, m))
+                    return
+                # the probe returns the first line start > mid; if that is >= U, no line starts in (mid, U): the remaining candidates are (P, mid] = (P, mid+1)
+                if nu != m + 1:
+                    res.fail("bisect/narrow", gcalls[0], "after an overshoot the candidates left are exactly the line starts in (prev, mid]; the new exclusive bound must be mid+1, got `%s` (=%d, mid=%d at P=%d,U=%d)" % (new_u, nu, m, Pv, Uv))
+                    return
+                if not nu < Uv:
+                    res.fail("bisect/narrow-progress", gcalls[0], "the narrowed bound does not shrink at P=%d,U=%d: unbounded recursion" % (Pv, Uv))
+                    return
+    except Refuse as e:
+        res.fail("bisect/arith", fn, "unrecognised arithmetic in the bisection: %s" % e)
+        return
+    # --- recording: exactly one unconditional insertion of (position, parsed name) after prev -----------------------------
+    if len(ins) != 1 or ins[0]["method"] != "insert_after" or toplevel_stmt(ins[0]).k != "let" and toplevel_stmt(ins[0]).k != "expr_stmt":
+        res.fail("bisect/insert", fn, "exactly one insertion per probe expected, found %d" % len(ins))
+        return
+    it = toplevel_stmt(ins[0])
+    holder = strip(it["init"]) if it.k == "let" else strip(it["e"])
+    if holder is not ins[0] and up(holder) != up(ins[0]):
+        res.fail("bisect/insert-conditional", ins[0], "every in-range probed line must be recorded unconditionally")
+        return
+    ia = ins[0]["args"]
+    tup = strip(ia[1])
+    if up(strip(ia[0])) != "prev" or tup.k != "tuple" or up(strip(tup["elems"][0])) != T or "parse_line" not in origin(fn, tup["elems"][1]):
+        res.fail("bisect/insert-pair", ins[0], "the entry recorded after prev must pair the probed position with the name parsed from the line read at it; got `%s`" % up(ins[0]))
+        return
+    # no other exit: the only returns are the base case, the narrowed search, and the (unreachable once in range) empty-line arm of the parse
+    allowed = 0
+    for r_ in [n for n in walk_no_nested_fn(fn.body) if n.k == "return"]:
+        par = r_.parent
+        while par is not None and isinstance(par, Node) and par.k not in ("arm", "if"):
+            par = par.parent
+        if _inside(g["then"], r_):
+            allowed += 1
+        elif par is not None and par.k == "if" and toplevel_stmt(par).order < toplevel_stmt(seeks[0]).order and re.fullmatch(r"\{return Ok\(\(\)\);?\}", up(par["then"])):
+            allowed += 1     # base case (and the depth-limit panic guard has no return)
+        elif par is not None and par.k == "arm" and up(par["pat"]) == "None" and _match_of(par) is not None and "parse_line" in origin(fn, _match_of(par)["scrut"]) \
+                and toplevel_stmt(g).order < toplevel_stmt(par).order:
+            allowed += 1
+        else:
+            res.fail("bisect/early-return", r_, "an exit that neither records the probed line nor narrows the interval: `%s`" % up(toplevel_stmt(r_))[:100])
+            return
+    C = up(it["pat"]) if it.k == "let" else None
+    if C is None:
+        res.fail("bisect/insert-handle", ins[0], "the inserted entry's handle is needed for the recursion")
+        return
+    # the None arm of the parse (line empty) can only be EOF; it must come after the overshoot guard
+    # --- recursion ----------------------------------------------------------------------------------------------------------
+    rest = [c for c in recs if c is not gcalls[0]]
+    if len(rest) != 2:
+        res.fail("bisect/recursion", fn, "expected a left and a right recursive search, found %d" % len(rest))
+        return
+    name_ne = lambda x, y: {"chroms.get%s.unwrap.1!=chroms.get%s.unwrap.1" % (x, y), "chroms.get%s.unwrap.1!=chroms.get%s.unwrap.1" % (y, x)}
+    ok_extra = {"%s<%s" % (T, U)}
+    sides = {}
+    for c in rest:
+        i = c
+        while i is not None and not (isinstance(i, Node) and i.k == "if"):
+            i = i.parent
+        if i is None or toplevel_stmt(i).order <= it.order:
+            res.fail("bisect/recursion-place", c, "recursive searches must follow the recording of the probed line")
+            return
+        st = stmt_of(c)
+        if st is None or not up(st).rstrip(";").endswith("?"):
+            res.fail("bisect/recursion-err", c, "an error from a recursive search must be propagated")
+            return
+        ar = {names[k]: up(strip(c["args"][k])) for k in range(len(names))}
+        cond = _sq(_inl(fn, i["cond"]))
+        if ar["prev"] == "prev" and ar["next"] == "Some(%s)" % C:
+            conj = set(cond.split("&&"))
+            if not (conj & name_ne(C, "prev")) or (conj - name_ne(C, "prev") - ok_extra):
+                res.fail("bisect/left-cond", i, "the left search may be skipped only when the probed line has prev's chromosome; condition is `%s`" % up(i["cond"]))
+                return
+            if ar[U] != T:
+                res.fail("bisect/left-bound", c, "the left search covers line starts before the probed position; bound passed is `%s`" % ar[U])
+                return
+            sides["left"] = c
+        elif ar["prev"] == C and ar["next"] == "next":
+            want = {"next.map|next|chroms.get%s.unwrap.1!=chroms.getnext.unwrap.1.unwrap_ortrue" % C, "next.map|next|chroms.getnext.unwrap.1!=chroms.get%s.unwrap.1.unwrap_ortrue" % C,
+                    "next.map_ortrue,|next|chroms.get%s.unwrap.1!=chroms.getnext.unwrap.1" % C}
+            if cond not in want:
+                res.fail("bisect/right-cond", i, "the right search may be skipped only when the probed line has next's chromosome (never when there is no next); condition is `%s`" % up(i["cond"]))
+                return
+            if ar[U] != U:
+                res.fail("bisect/right-bound", c, "the right search keeps the interval's upper bound; bound passed is `%s`" % ar[U])
+                return
+            sides["right"] = c
+        else:
+            res.fail("bisect/recursion-args", c, "unrecognised recursive search (prev=%s, next=%s)" % (ar["prev"], ar["next"]))
+            return
+    if set(sides) != {"left", "right"}:
+        res.fail("bisect/recursion", fn, "both a left (prev, probed) and a right (probed, next) search are required")
+        return
+    # --- the top call covers the whole file -----------------------------------------------------------------------------------
+    outer = ctx.ast.fn(IX, "index_chroms")
+    top = [c for c in walk_no_nested_fn(outer.body) if c.k == "call" and up(c["func"]) == "do_index"]
+    if len(top) != 1:
+        res.fail("bisect/top", outer, "expected one top-level search")
+        return
+    ta = {names[k]: top[0]["args"][k] for k in range(len(names))}
+    fo, po = origin(outer, ta[U]), origin(outer, ta["prev"])
+    if up(strip(ta["next"])) != "None" or "End" not in fo or "seek" not in fo or "insert_first" not in po:
+        res.fail("bisect/top-args", top[0], "the top-level search must run from the first line (offset 0) to the end of the file")
+        return
+    firsts = [c for c in walk_no_nested_fn(outer.body) if c.k == "mcall" and c["method"] == "insert_first"]
+    ft = strip(firsts[0]["args"][0]) if len(firsts) == 1 else None
+    if ft is None or ft.k != "tuple" or up(strip(ft["elems"][0])) != "0" or "parse_line" not in origin(outer, ft["elems"][1]):
+        res.fail("bisect/first", outer, "the first index entry must be (0, name parsed from the first line)")
+        return
+    res.count("bisection_cases", n_cases)
+    res.ok(fn, "do_index: probe = first line start after mid, P <= mid < U for all %d small (P,U); overshoot (>= U) narrows to (prev, mid+1) and continues; base case exact; "
+               "in-range probe recorded unconditionally as (position, parsed name) after prev; left search skipped only on name(probed)=name(prev), right only on name(probed)=name(next); "
+               "errors propagated; top call covers (0, file size)" % n_cases)
